@@ -389,6 +389,7 @@ package leader
 //@   on store kvElection.ctx set e.stopped = false
 //@   ensures C19+C09.refused_start_has_no_effect: result == ErrAlreadyStarted ==> calls(cancel) == 0 && spawns(Start$1) == 0
 //@   ensures C09.start_spawns_one_round: result == nil ==> spawns(Start$1) == 1
+//@   on call becomeFollower assert C07.rounds_never_demote: false
 
 //@ func (e *kvElection) attemptAcquireWithRetry(ctx)
 //@   tags C17 C06 C07
@@ -413,9 +414,10 @@ package leader
 //@   on ret CalculateBackoff as c set lastBackoff = c.result
 //@   ghost lastErrNonNil Bool = false
 //@   on ret attemptAcquire as r set lastErrNonNil = r.result != nil
-//@   on call becomeFollower assert C06+C07.fallback_only_after_last_attempt_failed: attempts == 4 && lastErrNonNil
+//@   on call settleAsFollower assert C06+C07.fallback_only_after_last_attempt_failed: attempts == 4 && lastErrNonNil
+//@   on call becomeFollower assert C07.rounds_never_demote: false
 //@   ghost bfCalled Bool = false
-//@   on call becomeFollower set bfCalled = true
+//@   on call settleAsFollower set bfCalled = true
 //@   on return assert C06.exhausted_round_returns_to_follower: attempts == 4 && lastErrNonNil ==> bfCalled
 //@   loop 0 invariant C17.round_shape: 0 <= $v && $v <= 3 && attempts == $v && jitterWaited && jitterArmed && (attempts == 0 || waitedSince) && !bfCalled && (attempts > 0 ==> lastErrNonNil)
 
@@ -465,9 +467,16 @@ package leader
 //@   ensures C09.no_promote_after_stop: stateL == "STOPPED" || ctxNilL ==> !claimed && spawns(becomeLeader$1) == 0 && spawns(becomeLeader$2) == 0 && spawns(becomeLeader$3) == 0
 //@   ensures C02.claims_when_running: stateL != "STOPPED" && !ctxNilL ==> claimed && spawns(becomeLeader$1) == 1 && spawns(becomeLeader$2) == 1
 
+// becomeFollower() and settleAsFollower() are thin unexported wrappers: always inlined into
+// their callers (where the caller's justification is known), never verified on their own.
 //@ func (e *kvElection) becomeFollower()
+//@   flag inline inline_only
+//@ func (e *kvElection) settleAsFollower()
+//@   flag inline inline_only
+
+//@ func (e *kvElection) demote(unlessLeader)
 //@   tags C03 C07 C08 C18 C19 C06
-//@   requires C07.no_demotion_without_cause: caller.demote_cause
+//@   requires C07.no_demotion_without_cause: unlessLeader || caller.demote_cause
 //@   ghost out cleared Bool = false
 //@   ghost termCancelled Bool = false
 //@   ghost watcherSeen Bool = false
@@ -480,14 +489,16 @@ package leader
 //@   on call termCancel set termCancelled = true
 //@   ghost wrCleared Bool = false
 //@   on store kvElection.watcherRunning as s when inspawn() set wrCleared = !s.value
-//@   on ret becomeFollower$1 assert C06+C18.watcher_flag_cleared_on_exit: wrCleared
-//@   on unlock kvElection.mu assert C03.claim_cleared_at_unlock: !e.isLeader
-//@   ensures C08.reports_cleared: result == cleared
+//@   on ret demote$1 assert C06+C18.watcher_flag_cleared_on_exit: wrCleared
+//@   on unlock kvElection.mu assert C03.claim_cleared_at_unlock: !unlessLeader ==> !e.isLeader
+//@   on store kvElection.isLeader assert C07.settling_never_clears_a_claim: unlessLeader ==> !cleared
+//@   ensures C07.settling_reports_nothing_cleared: unlessLeader ==> !result
+//@   ensures C08.reports_cleared: !unlessLeader ==> result == cleared
 //@   ensures C19.cancelled_on_demotion: cleared ==> termCancelled
 //@   ghost stateL Int = 0
 //@   on lock kvElection.mu set stateL = e.state
-//@   ensures C06.failed_round_rearms: stateL != "STOPPED" && ctxSeen && !watcherSeen ==> spawns(becomeFollower$1) == 1
-//@   ensures C09.stopped_stays_stopped: stateL == "STOPPED" ==> spawns(becomeFollower$1) == 0 && calls(recordTransition) == 0
+//@   ensures C06.failed_round_rearms: stateL != "STOPPED" && !(unlessLeader && cleared) && ctxSeen && !watcherSeen ==> spawns(demote$1) == 1
+//@   ensures C09.stopped_stays_stopped: stateL == "STOPPED" ==> spawns(demote$1) == 0 && calls(recordTransition) == 0
 
 //@ func (e *kvElection) Stop()
 //@   tags C09 C08 C18 C01 C20
@@ -679,7 +690,7 @@ package leader
 //@   ghost cleared Bool = false
 //@   ghost demoteSet Bool = false
 //@   on call becomeFollower set demote_cause = err != nil
-//@   on ret becomeFollower as r set cleared = r.cleared
+//@   on ret becomeFollower as r set cleared = r.result
 //@   on load kvElection.onDemote as l set demoteSet = l.value != nil
 //@   ensures C03.demotes: calls(becomeFollower) == 1
 //@   ensures C03.runs_demote_callback: cleared && demoteSet ==> calls(onDemote) == 1
@@ -692,7 +703,7 @@ package leader
 //@   ghost cleared Bool = false
 //@   ghost demoteSet Bool = false
 //@   on call becomeFollower set demote_cause = true
-//@   on ret becomeFollower as r set cleared = r.cleared
+//@   on ret becomeFollower as r set cleared = r.result
 //@   on load kvElection.onDemote as l set demoteSet = l.value != nil
 //@   ensures C12.demotes: calls(becomeFollower) == 1
 //@   ensures C12.runs_demote_callback: cleared && demoteSet ==> calls(onDemote) == 1
@@ -732,7 +743,7 @@ package leader
 //@   ghost cleared Bool = false
 //@   ghost demoteSet Bool = false
 //@   on call becomeFollower set demote_cause = true
-//@   on ret becomeFollower as r set cleared = r.cleared
+//@   on ret becomeFollower as r set cleared = r.result
 //@   on load kvElection.onDemote as l set demoteSet = l.value != nil
 //@   ensures C04.demotes: calls(becomeFollower) == 1
 //@   ensures C04.runs_demote_callback: cleared && demoteSet ==> calls(onDemote) == 1
@@ -794,7 +805,7 @@ package leader
 //@   on store kvElection.revision assert C07+C01.leader_never_adopts_observed_revision: !sawLeader
 //@   on store kvElection.leaderID assert C07+C18.leader_never_adopts_observed_id: !sawLeader
 //@   on call becomeFollower set demote_cause = sawLeader && ParseOK(EntryVal(entry)) && IDOf(EntryVal(entry)) != e.cfg.InstanceID && revLoaded && EntryRev(entry) > ownRev
-//@   on ret becomeFollower as r set cleared = r.cleared
+//@   on ret becomeFollower as r set cleared = r.result
 //@   on spawn handleWatchEvent$1 assert C10.watch_gate: e.cfg.AllowPriorityTakeover && ParseOK(EntryVal(entry)) && e.cfg.Priority > PrioOf(EntryVal(entry))
 //@   ensures C06.vacancy_triggers_acquire: entry == nil || LenOf(EntryVal(entry)) == 0 ==> spawns(attemptAcquireWithRetry) == 1
 //@   ensures C13.no_acquire_on_live_record: entry != nil && LenOf(EntryVal(entry)) != 0 ==> spawns(attemptAcquireWithRetry) == 0
@@ -839,7 +850,7 @@ package leader
 //@   on load kvElection.isLeader as l set sawLeader = l.value
 //@   on call becomeFollower set demote_cause = (d.election.connectionMonitor == nil || statusSeen == 1) && sawLeader
 //@   on call becomeFollower assert C11.expiry_is_current: isCurrent
-//@   on ret becomeFollower as r set cleared = r.cleared
+//@   on ret becomeFollower as r set cleared = r.result
 //@   on load kvElection.onDemote as l set demoteSet = l.value != nil
 //@   ensures C11.expiry_demotes: (d.election.connectionMonitor == nil || statusSeen == 1) && sawLeader ==> calls(becomeFollower) == 1 && (demoteSet ==> calls(onDemote) == 1)
 //@   ensures C11.no_demotion_if_reconnected: d.election.connectionMonitor != nil && statusSeen != 1 ==> calls(becomeFollower) == 0 && calls(onDemote) == 0
@@ -881,7 +892,7 @@ package leader
 //@   ghost demoteSet Bool = false
 //@   on load kvElection.isLeader as l set sawLeader = l.value
 //@   on call becomeFollower set demote_cause = true
-//@   on ret becomeFollower as r set cleared = r.cleared
+//@   on ret becomeFollower as r set cleared = r.result
 //@   on load kvElection.onDemote as l set demoteSet = l.value != nil
 //@   ensures C11.failed_verification_demotes: sawLeader ==> calls(becomeFollower) == 1 && (demoteSet ==> calls(onDemote) == 1)
 //@   ensures C11+C08.no_demotion_if_not_leader: !sawLeader ==> calls(becomeFollower) == 0 && calls(onDemote) == 0
